@@ -1,8 +1,8 @@
 (* Proofs/C35Msgs.v — round trips of the line-oriented packp messages:
    ShallowUpdate, UploadHaves, PushOptions, ReportStatus, ServerResponse. *)
 From Coq Require Import List NArith ZArith Bool Lia Arith String.
-From GoGit Require Import Base.Out Base.GoInt Gen.C34 Model.PktLine Model.Packp
-  Proofs.C34Stream Proofs.C34Hex Proofs.C34Pkt Proofs.C35Base.
+From GoGit Require Import Base.Out Base.GoInt Gen.C34 Model.PktLine Model.C35Utf8 Model.Packp
+  Proofs.C34Stream Proofs.C34Hex Proofs.C34Pkt Proofs.C35Base Proofs.C35Utf8 Proofs.C35U.
 Import ListNotations.
 
 Arguments MaxSizeN : simpl never.
@@ -59,30 +59,34 @@ Proof.
 Qed.
 
 (* ================= ShallowUpdate ================= *)
-Lemma su_step (sh : bool) h r fin u : sha1_ok h = true ->
+Lemma su_step (sh : bool) h r fin u : hash_ok h = true ->
   su_decode_go (item_of (PData ((if sh then B "shallow " else B "unshallow ") ++ hash_str h ++ [NL])) :: r) fin u
   = su_decode_go r fin (if sh then mkshupd (su_shallows u ++ [h]) (su_unshallows u)
                         else mkshupd (su_shallows u) (su_unshallows u ++ [h])).
 Proof.
-  intros H. destruct (sha1_len h H) as [L Hok].
-  pose proof (hash_str_ne h Hok) as Hne. pose proof (hash_str_chars h Hok) as Hch.
+  intros Hok. pose proof (hash_str_length h Hok) as L.
+  pose proof (hash_str_ne h Hok) as Hne. pose proof (hash_str_asciins h Hok) as Hch.
   rewrite item_of_ne by (rewrite app_length; destruct sh; cbn; lia).
   cbn [su_decode_go fst snd]. rewrite item_nz.
   destruct sh.
   - change (B "shallow " ++ hash_str h ++ [NL]) with ((115%N :: skipn 1 (B "shallow ") ++ hash_str h) ++ [NL]).
-    rewrite (trim_clean _ (clean_prefix_hex 115 _ _ eq_refl Hne Hch)).
+    rewrite (trim_u_clean _ (clean_u_prefix_hex 115 _ _ eq_refl Hne Hch)).
     change (115%N :: skipn 1 (B "shallow ") ++ hash_str h) with (B "shallow " ++ hash_str h).
-    rewrite has_prefix_app, app_length, L. change (Nat.eqb (List.length (B "shallow ") + 40) 48) with true. cbv iota.
+    rewrite has_prefix_app, app_length, L.
+    assert (Nat.eqb (List.length (B "shallow ") + hash_hexsize h) 48 || Nat.eqb (List.length (B "shallow ") + hash_hexsize h) 72 = true) as ->
+      by (unfold hash_hexsize, hash_size; destruct (h256 h); reflexivity).
     change 8%nat with (List.length (B "shallow ")). rewrite skipn_app_len, (new_hash_str h Hok). reflexivity.
   - change (B "unshallow " ++ hash_str h ++ [NL]) with ((117%N :: skipn 1 (B "unshallow ") ++ hash_str h) ++ [NL]).
-    rewrite (trim_clean _ (clean_prefix_hex 117 _ _ eq_refl Hne Hch)).
+    rewrite (trim_u_clean _ (clean_u_prefix_hex 117 _ _ eq_refl Hne Hch)).
     change (117%N :: skipn 1 (B "unshallow ") ++ hash_str h) with (B "unshallow " ++ hash_str h).
     change (has_prefix (B "shallow ") (B "unshallow " ++ hash_str h)) with false. cbv iota.
-    rewrite has_prefix_app, app_length, L. change (Nat.eqb (List.length (B "unshallow ") + 40) 50) with true. cbv iota.
+    rewrite has_prefix_app, app_length, L.
+    assert (Nat.eqb (List.length (B "unshallow ") + hash_hexsize h) 50 || Nat.eqb (List.length (B "unshallow ") + hash_hexsize h) 74 = true) as ->
+      by (unfold hash_hexsize, hash_size; destruct (h256 h); reflexivity).
     change 10%nat with (List.length (B "unshallow ")). rewrite skipn_app_len, (new_hash_str h Hok). reflexivity.
 Qed.
 
-Lemma su_decode_lines (sh : bool) : forall hs r fin u, forallb sha1_ok hs = true ->
+Lemma su_decode_lines (sh : bool) : forall hs r fin u, forallb hash_ok hs = true ->
   su_decode_go (map item_of (map (fun h => PData ((if sh then B "shallow " else B "unshallow ") ++ hash_str h ++ [NL])) hs) ++ r) fin u
   = su_decode_go r fin (if sh then mkshupd (su_shallows u ++ hs) (su_unshallows u)
                         else mkshupd (su_shallows u) (su_unshallows u ++ hs)).
@@ -94,7 +98,7 @@ Proof.
     destruct sh; cbn [su_shallows su_unshallows]; rewrite <- app_assoc; reflexivity.
 Qed.
 
-Theorem su_roundtrip u : forallb sha1_ok (su_shallows u) = true -> forallb sha1_ok (su_unshallows u) = true ->
+Theorem su_roundtrip u : forallb hash_ok (su_shallows u) = true -> forallb hash_ok (su_unshallows u) = true ->
   su_decode (mksrc (map item_of (su_encode u)) None) = inl u.
 Proof.
   intros H1 H2. unfold su_decode, su_encode. cbn [s_items s_fin]. rewrite !map_app.
@@ -145,11 +149,7 @@ Proof.
   cbn [uh_decode_go fst snd]. rewrite item_nz.
   change (has_prefix (B "done") (B "have " ++ hash_str h ++ [NL])) with false. cbv iota.
   rewrite has_prefix_app. cbn [negb]. change 5%nat with (List.length (B "have ")). rewrite skipn_app_len.
-  assert (clean_text (hash_str h) = true) as Hc.
-  { destruct (hash_str h) as [|c t] eqn:E; [contradiction|]. unfold clean_text.
-    pose proof (hexchar_last (c :: t) Hne Hch) as Hl. cbn [forallb] in Hch. apply andb_prop in Hch. destruct Hch as [Hc1 _].
-    destruct (hexchar_nonspace _ Hc1) as [-> _]. destruct (hexchar_nonspace _ Hl) as [-> _]. reflexivity. }
-  rewrite (trim_clean _ Hc), (new_hash_str h Hok). reflexivity.
+  rewrite (trim_u_clean _ (clean_u_hex _ (hash_str_asciins h Hok))), (new_hash_str h Hok). reflexivity.
 Qed.
 
 Lemma uh_decode_lines : forall hs r fin u, Forall (fun h => hash_ok h = true) hs ->
@@ -177,7 +177,7 @@ Proof.
 Qed.
 
 (* ================= PushOptions ================= *)
-Lemma po_decode_lines : forall opts r fin acc, forallb (forallb graphic_ascii) opts = true ->
+Lemma po_decode_lines : forall opts r fin acc, forallb graphic_str opts = true ->
   po_decode_go (map item_of (map PData opts) ++ r) fin acc = po_decode_go r fin (acc ++ opts).
 Proof.
   induction opts as [|o opts IH]; intros r fin acc H; [cbn; now rewrite app_nil_r|].
@@ -192,7 +192,7 @@ Qed.
 Theorem po_roundtrip opts ps : po_encode opts = Some ps ->
   po_decode (mksrc (map item_of ps) None) = inl opts.
 Proof.
-  unfold po_encode. destruct (forallb (fun o => forallb graphic_ascii o && (zlen o <=? pktline_MaxPayloadSize)%Z) opts) eqn:E; [|discriminate]. intros [= <-].
+  unfold po_encode. destruct (forallb (fun o => graphic_str o && (zlen o <=? pktline_MaxPayloadSize)%Z) opts) eqn:E; [|discriminate]. intros [= <-].
   unfold po_decode. cbn [s_items s_fin]. rewrite map_app, po_decode_lines; [reflexivity|].
   rewrite forallb_forall in *. intros o Ho. specialize (E o Ho). apply andb_prop in E. apply E.
 Qed.
@@ -264,7 +264,7 @@ Fixpoint sr_ok (acks : list ack) : bool :=
   end.
 
 Lemma status_str_clean st : (1 <= st <= 3)%N ->
-  no_byte SP (status_str st) = true /\ clean_text (status_str st) = true /\
+  no_byte SP (status_str st) = true /\ clean_u (status_str st) = true /\
   (let s := status_str st in
    (if beq s (B "continue") then 1%N else if beq s (B "common") then 2%N else if beq s (B "ready") then 3%N else 0%N) = st).
 Proof.
@@ -295,7 +295,7 @@ Proof.
   { subst line. rewrite app_length. cbn [List.length]. rewrite app_length, HL. unfold hash_hexsize, hash_size. destruct (h256 h); cbn; lia. }
   destruct line as [|c0 l0]; [cbn in Hlen; lia|]. rewrite Hp, Hs. cbn [List.length nth].
   destruct (Nat.ltb_spec (S (List.length l0)) 44); [cbn [List.length] in Hlen; lia|]. cbn [Nat.ltb Nat.leb orb].
-  rewrite (trim_eol_id _ Hnl), (new_hash_str h Hok), (trim_clean _ S2). cbv zeta in S3. rewrite S3. reflexivity.
+  rewrite (trim_eol_id _ Hnl), (new_hash_str h Hok), (trim_u_clean _ S2). cbv zeta in S3. rewrite S3. reflexivity.
 Qed.
 
 Lemma sr_plain_step h r fin acc : hash_ok h = true ->
